@@ -192,15 +192,24 @@ class SingularityCutter(Worker):
             # no singularities => no spanning tree and no constraints on edges
             return edge_flags
 
+        # Border edges are always part of the cut. The selected edges should never close a loop with them
+        # (or with each other), otherwise the faces enclosed by the loop cannot be reached by the dual tree.
+        linked = UnionFind(self.input_mesh.id_vertices)
+        for e in self.input_mesh.boundary_edges:
+            linked.union(*self.input_mesh.edges[e])
+
+        def select_edge(u,v):
+            if linked.connected(u,v): return
+            linked.union(u,v)
+            edge_flags[self.input_mesh.connectivity.edge_id(u,v)] = True
+
         # First compute the closest point from singularities to feature graph
         closest_v = set()
         for v in self.singularities:
             id_feat, path = shortest_path_to_vertex_set(self.input_mesh, v, self.feat_detector.feature_vertices, weights=self.edge_lengths)
             closest_v.add(id_feat)
             for i in range(len(path)-1):
-                u,v = path[i], path[i+1]
-                e = self.input_mesh.connectivity.edge_id(u,v)
-                edge_flags[e] = True
+                select_edge(path[i], path[i+1])
 
         # Then construct a tree on the feature graph linking all the previous points. Perform a BFS
         closest_v = list(closest_v)
@@ -215,8 +224,7 @@ class SingularityCutter(Worker):
             visited[v] = True
             parent[v] = prev
             if prev is not None:
-                e = self.input_mesh.connectivity.edge_id(v,prev)
-                edge_flags[e] = True
+                select_edge(v,prev)
             for e in self.input_mesh.connectivity.vertex_to_edges(v):
                 if e in self.feat_detector.feature_edges:
                     nv = self.input_mesh.connectivity.other_edge_end(e,v)
